@@ -104,7 +104,8 @@ pub fn c17() -> i32 {
     rep.rule = "grid: scenarios (topologies with several local players / three or more peers, with and without spectators, fault-free and two faulty fixed schedules) x hash seeds enumerated until every iteration order of every registry map (and as many order tuples as the seed budget reaches) has occurred x rng seeds; each run compared with the run under the first seed; non-trivial = run under a seed that produced a new tuple of iteration orders; distinct = distinct order tuples".to_owned();
     rep.assumptions = vec!["the simulated network hands packets over in canonical (due round, source, sequence) order, so the premise 'same packets in the same order' holds whatever order the peers sent in".into(), "deterministic game (a genuinely desynchronised game is outside the statement)".into()];
     let scns = scenarios(t);
-    let seed_budget: u64 = if t { 7000 } else { 400 };
+    let seed_budget: u64 = if t { 2000 } else { 300 };
+    let seed_cap: u64 = if t { 60_000 } else { 4000 };
     let rng_seeds: Vec<u64> = if t { vec![7, 1, 2, 3] } else { vec![7, 2] };
     let next = AtomicU64::new(0);
     let findings: Mutex<Vec<Finding>> = Mutex::new(Vec::new());
@@ -120,9 +121,19 @@ pub fn c17() -> i32 {
                 let mut reference: Option<Vec<Vec<String>>> = None;
                 let mut tuples: HashSet<String> = HashSet::new();
                 let mut per_map: Vec<HashSet<String>> = Vec::new();
+                let mut map_keys: Vec<usize> = Vec::new();
                 let mut runs = 0u64;
                 let mut reported = false;
-                for hs in 1..=seed_budget {
+                let mut hs = 0u64;
+                loop {
+                    hs += 1;
+                    // at least the budget; beyond it only until every map has seen every order
+                    if hs > seed_budget {
+                        let done = !per_map.is_empty() && per_map.iter().zip(map_keys.iter()).all(|(seen, k)| seen.len() >= (1..=*k).product::<usize>().max(1));
+                        if done || hs > seed_cap {
+                            break;
+                        }
+                    }
                     for &rs in &rng_seeds {
                         // vary the rng seed only on a subset of hash seeds
                         if rs != rng_seeds[0] && hs % 16 != 1 {
@@ -134,6 +145,9 @@ pub fn c17() -> i32 {
                         let res = run_scn(&s, &Vec::new(), &RunOpt::default());
                         runs += 1;
                         let orders: Vec<Vec<Vec<String>>> = res.nodes.iter().map(|n| n.iter_orders.clone()).collect();
+                        if map_keys.is_empty() {
+                            map_keys = orders.iter().flat_map(|n| n.iter().map(Vec::len)).collect();
+                        }
                         tuples.insert(format!("{orders:?}"));
                         let mut k = 0;
                         for n in &orders {
@@ -217,7 +231,7 @@ pub fn c17() -> i32 {
     rep.transitions = g.0 * 54;
     rep.exhaustive = g.3;
     rep.samples = g.2.iter().take(4).cloned().collect();
-    rep.parts.push(json!({"part": "scenarios x hash seeds x rng seeds", "scenarios": scns.len(), "hash_seeds_per_scenario": seed_budget, "rng_seeds": rng_seeds, "runs": g.0, "distinct_iteration_order_tuples": g.1.len(), "every_registry_map_saw_every_order": g.3, "per_scenario": g.2}));
+    rep.parts.push(json!({"part": "scenarios x hash seeds x rng seeds", "scenarios": scns.len(), "hash_seeds_per_scenario_at_least": seed_budget, "hash_seed_cap": seed_cap, "rng_seeds": rng_seeds, "runs": g.0, "distinct_iteration_order_tuples": g.1.len(), "every_registry_map_saw_every_order": g.3, "per_scenario": g.2}));
     if !g.3 {
         rep.coverage.insert("note".into(), json!("some registry map did not take every iteration order within the seed budget; exhaustive=false refers to that"));
     }
